@@ -24,6 +24,9 @@ def gen(args):
     out = os.path.join(workdir, f"alloc-{config}.ndjson")
     p = subprocess.run([common.HQV, "alloc", "--config", config, "--tier", tier, "--depth", str(depth), "--max-states", str(max_states),
                         "--seed", str(seed), "--out", out], stdout=subprocess.PIPE, stderr=subprocess.PIPE, text=True, timeout=7200)
+    if p.returncode == 3 and os.path.exists(out + ".hang"):
+        # an operation of the real allocator did not return: data, not a tool error
+        return out, {"hang": json.load(open(out + ".hang")), "states": 0, "transitions": 0, "granted": 0, "refused": 0, "exhaustive_to_depth": False}
     if p.returncode != 0:
         raise common.ToolError(f"alloc harness failed on {config}: {p.stderr[-2000:]}")
     return out, json.loads(p.stderr.strip().splitlines()[-1])
@@ -64,9 +67,17 @@ def run(pid, tier, seed):
         jobs = [(work, c, tier, depth, max_states, seed) for c in CONFIGS[tier]]
         with cf.ThreadPoolExecutor(max_workers=len(jobs)) as ex:
             gens = list(ex.map(gen, jobs))
+        hangs = [g for g in gens if "hang" in g[1]]
+        gens = [g for g in gens if "hang" not in g[1]]
         with cf.ThreadPoolExecutor(max_workers=max(2, common.NCPU // 2)) as ex:
             viols = list(ex.map(validate, [(work, g[0]) for g in gens]))
         violations = []
+        for _, st in hangs:
+            d = st["hang"]
+            pol = "+".join(sorted(e["policy"] for e in d["rq"])) or d["op"]
+            violations.append({"formula": f"{pid}_RequestDecided", "signature": f"{pid}_RequestDecided:{pol}/no-answer-within-20s",
+                               "replay": {"engine": "alloc", "transition": d},
+                               "detail": f"config {d['d']}: {d['op']} {json.dumps(d['rq'])} did not return; free {json.dumps([p['free'] for p in d['pre']['pools']])}"})
         others = {}
         sample = None
         for (trace, stats), vs in zip(gens, viols):
